@@ -97,11 +97,12 @@ Proof.
 Qed.
 
 (* A pre-candidate becomes a real candidate (raising its term) only in the VoteWon branch of
-   a MsgPreVoteResp: the tally over the joint configuration, with the semantics of C12. *)
+   a MsgPreVoteResp that is a rejection or a grant for exactly Term+1: the tally over the
+   joint configuration, with the semantics of C12. *)
 Theorem precandidate_term_raise r m r' e :
   r_state r = StatePreCandidate -> step_candidate st r m = Ok (r', e) -> r_term r' <> r_term r ->
   from_leader (m_type m) = true \/
-  (m_type m = MsgPreVoteResp /\
+  (m_type m = MsgPreVoteResp /\ (m_reject m = true \/ m_term m = r_term r + 1) /\
    joint_vote (c_voters (t_config (r_trk r))) (c_outgoing (t_config (r_trk r)))
               (t_votes (record_vote (r_trk r) (m_from m) (negb (m_reject m)))) <> VotePending).
 Proof.
@@ -110,8 +111,24 @@ Proof.
     try (inversion H; subst; contradiction NE; reflexivity).
   all: cbn [msg_type_eqb msg_type_num N.eqb Pos.eqb] in H.
   all: try (inversion H; subst; contradiction NE; reflexivity).
-  right. split; [reflexivity|]. unfold poll, tally_votes in H. cbn [snd set_r_trk r_trk] in H.
+  right. split; [reflexivity|]. cbn [andb] in H.
+  destruct (negb (m_reject m) && negb (N.eqb (m_term m) (r_term r + 1))) eqn:G.
+  { inversion H; subst. contradiction NE. reflexivity. }
+  split.
+  { apply andb_false_iff in G. destruct G as [G|G]; [left; apply negb_false_iff; exact G|right].
+    apply negb_false_iff, N.eqb_eq in G. exact G. }
+  unfold poll, tally_votes in H. cbn [snd set_r_trk r_trk] in H.
   rewrite record_vote_config in H. intros P. rewrite P in H. inversion H; subst. apply NE. reflexivity.
+Qed.
+
+(* a grant that answers an earlier pre-campaign is ignored altogether *)
+Theorem stale_prevote_grant_ignored r m r' e :
+  r_state r = StatePreCandidate -> m_type m = MsgPreVoteResp -> m_reject m = false ->
+  m_term m <> r_term r + 1 -> step_candidate st r m = Ok (r', e) -> r' = r.
+Proof.
+  intros S T RJ NT H. unfold step_candidate in H. rewrite S, T, RJ in H.
+  cbn [state_type_eqb msg_type_eqb msg_type_num N.eqb Pos.eqb andb negb] in H.
+  apply N.eqb_neq in NT. rewrite NT in H. cbn in H. inversion H. reflexivity.
 Qed.
 
 End WithStorage.
